@@ -926,6 +926,37 @@ def foreign_loop_va_probe():
         other.close()
 
 
+def repeated_subscription_probe():
+    """The same public subscription made again on a live session with the SAME handler - subscribe_logs() a second and third time
+    (the only way to change the log level of a running session), subscribe_states() again: the handler is invoked once per
+    message. Returns a list of problems."""
+    async def go(loop):
+        from aioesphomeapi import api_pb2 as pb
+        from aioesphomeapi.model import LogLevel
+        net = simnet.Net(loop)
+        problems = []
+        with net.patched():
+            cli, tr = await simnet.connected_client(loop, net)
+            logs = []
+
+            class App:
+                def on_log(self, m):
+                    logs.append(bytes(m.message))
+            app = App()
+            for k, level in enumerate((LogLevel.LOG_LEVEL_INFO, LogLevel.LOG_LEVEL_DEBUG, LogLevel.LOG_LEVEL_VERY_VERBOSE)):
+                cli.subscribe_logs(app.on_log, log_level=level)
+                await simnet.drain(loop)
+                del logs[:]
+                tr.feed(simnet.plain_msg(pb.SubscribeLogsResponse(level=3, message=b"line %d" % k)))
+                await simnet.drain(loop)
+                if logs != [b"line %d" % k]:
+                    problems.append(f"subscribe_logs() called {k + 1} time(s) with the same handler: one log message reached it as {logs}")
+            await cli.disconnect(force=True)
+            await simnet.drain(loop)
+        return problems
+    return simnet.run(go)
+
+
 def run(rep, tier, seed):
     rng = random.Random(seed)
     rep.coverage["rule"] = (
@@ -985,6 +1016,11 @@ def run(rep, tier, seed):
                                   f"{' (advertisement name is not valid UTF-8)' if bad_name else ''}: callbacks per message {per_msg}, expected {want}"
                                   f"{'' if alive else '; the connection was closed'}",
                                   {"kind": "self-unsub", "subscription": kind, "who": who, "bad_name": bad_name})
+    problems = repeated_subscription_probe()
+    rep.case(("repeated-subscription",), True, sample={"repeated_subscription": problems[:2]})
+    rep.bump("probe:repeated-subscription")
+    if problems:
+        rep.violation("C17/callback-count", f"{problems[0]}; {len(problems)} problem(s): the matching handler is invoked once per message", {"kind": "repeated-subscription"})
     problems = foreign_loop_va_probe()
     rep.case(("foreign-loop-voice-assistant",), True, sample={"client_built_under_another_loop": "voice-assistant", "problems": problems})
     rep.bump("probe:foreign-loop")
@@ -1011,6 +1047,10 @@ def run(rep, tier, seed):
 def replay(path):
     common.setup_impl_path()
     d = json.loads(open(path).read())["replay"]
+    if d.get("kind") == "repeated-subscription":
+        problems = repeated_subscription_probe()
+        print(problems)
+        return 1 if problems else 0
     if d.get("kind") == "foreign-loop-va":
         problems = foreign_loop_va_probe()
         print(problems)
